@@ -277,7 +277,7 @@ META = {
         ["dict model with the log-density as a stored field / densities with -inf and NaN regions (F2)", "F4 keys found by a vectorised key search (simkit/f4_keys.json, verified at run time)"],
         [
             "the uniform draw of a key is jax.random.uniform(key) (the documented draw); RW/MH/IWLS kernels draw it from split(key)[1]",
-            "a tie u == alpha for 0 < alpha < 1 is left undecided (margin 1e-5 + 1e-4 alpha)",
+            "for 0 < alpha < 1 the clause 'accepted only if the draw lies below alpha' is judged by the acceptance frequency over 2048 independent keys (Hoeffding bound, false-alarm probability <= 1e-12 per case): which uniform draw an implementation uses is not prescribed, so a pathwise comparison with jax.random.uniform(key) would flag the equivalent rule 1 - u <= alpha",
             "in engine runs 'accepted' is read off position_moved and cross-checked against the stored positions",
         ],
         run_cap_s=300, shrink_tests=40, shrink_s=120,
